@@ -273,6 +273,9 @@ func c01Case(c *core.C) {
 	doc, shape := gen.SPDXDoc(c.R, c.K, maxNodes)
 	indent := c01Indents[c.K%len(c01Indents)]
 	c.Cover("shape:" + shape)
+	if gen.IsRelatedIDs(doc.NodeList) {
+		c.Cover("identifiers:short-and-related(prefixes, suffixes, concatenations of one another)")
+	}
 	c.Cover(fmt.Sprintf("edge-type:%d", 1+c.K%44))
 	c.Cover(fmt.Sprintf("hash-algo:%d", int32(gen.SPDXHashAlgos[c.K%16])))
 	c.Cover(fmt.Sprintf("indent:%d", indent))
